@@ -74,7 +74,7 @@ type c20Start struct {
 func c20Scenarios(tier mc.Tier) []mc.Scenario {
 	depth := 4
 	if tier == mc.Thorough {
-		depth = 6
+		depth = 5 // 111 111 histories per remote-signer scenario over the ten operations
 	}
 	var out []mc.Scenario
 	for _, media := range []string{envenc.MediaJWS, envenc.MediaCOSE} {
@@ -82,8 +82,8 @@ func c20Scenarios(tier mc.Tier) []mc.Scenario {
 			for _, remote := range []bool{false, true} {
 				st := c20Start{media, start, remote}
 				depth := depth
-				if tier == mc.Quick && !remote {
-					depth = 3 // the local-signer paths differ from the remote ones only inside the inner Sign
+				if !remote {
+					depth-- // the local-signer paths differ from the remote ones only inside the inner Sign
 				}
 				var expect int64 = 0
 				p := int64(1)
@@ -356,7 +356,7 @@ func c20Body(c *mc.Ctx, st c20Start, depth int) {
 func init() {
 	register(&mc.Check{
 		ID: "C20", Title: "An envelope object reflects its last successful signing or its parsed bytes", DesignRef: "DESIGN.md §4 C20",
-		Rule: "Engine E3: every history up to length 4 (quick) / 6 (thorough) over {sign A, sign B, sign failing before the signer is invoked, failing inside the inner envelope before signing, failing at timestamping (after the signer ran), failing after the inner envelope (chain invalid at the signing time), an external signer whose signature value was made with another key, verify, content} on one envelope object, " +
+		Rule: "Engine E3: every history up to length 4 (quick) / 5 (thorough) (one less with a local signer) over {sign A, sign B, sign failing before the signer is invoked, failing inside the inner envelope before signing, failing at timestamping (after the signer ran), failing after the inner envelope (chain invalid at the signing time), an external signer whose signature value was made with another key, verify, content} on one envelope object, " +
 			"from a new, a parsed valid and a parsed tampered envelope, both formats, local and remote signer; each history is replayed on a fresh object (no state merging) and after every operation Verify and Content are called twice and compared with a five-state reference machine " +
 			"(empty / parsed-valid / parsed-tampered / signed-A / signed-B, plus signed-unverifiable when the library returns bytes for the wrong-key signer): purity, no-signature error when empty, content of the last successful signing equal to a fresh parse of the returned bytes, and a failed signing never observable.",
 		Assumptions: []string{"after a failed signing the model follows whichever of the two allowed observations (previous state / no signature) the object shows"},
